@@ -3,6 +3,7 @@ values — no CrossHair, no shims, real float and formatting — against the cur
 import argparse
 import importlib
 import json
+import os
 import sys
 import traceback
 
@@ -26,6 +27,12 @@ def main():
     ap.add_argument('--file')
     a = ap.parse_args()
     d = json.loads(a.json) if a.json else json.load(open(a.file))
+    if d.get('witness') and not os.environ.get('VERIF_WITNESS_IN'):
+        import tempfile
+        tf = tempfile.NamedTemporaryFile('w', suffix='.json', delete=False)
+        json.dump(d['witness'], tf)
+        tf.close()
+        os.environ['VERIF_WITNESS_IN'] = tf.name
     case = [tuple(c) if isinstance(c, list) else c for c in d['case']]
     r = run(d['module'], d['impl'], case, d['args'])
     print('REPLAY-RESULT ' + json.dumps({'reason': r}))
